@@ -259,6 +259,10 @@ func (s *State) typeFacts(t types.Type, terms []string, alloc string) {
 				s.assume(and(app("<=", lo, terms[0]), app("<=", terms[0], hi)))
 			}
 		}
+		if u.Info()&types.IsString != 0 && !strings.HasPrefix(terms[0], "\"") {
+			// no string is longer than the address space allows
+			s.assume(app("<=", app("str.len", terms[0]), maxLen))
+		}
 	case *types.Pointer, *types.Map, *types.Chan, *types.Signature, *types.Interface:
 		if alloc != "" {
 			s.assume(and(app("<=", "0", terms[0]), app("<", terms[0], alloc)))
